@@ -137,7 +137,10 @@ def main_runs(ck):
     info = [None]
     base = tlc.subdir("c13main")
     ind = os.path.join(base, "in")
-    c_text.write_tree(ind, {"a.cfg": INPUTS["mixed"], "sub/b.cfg": INPUTS["plain"]})
+    files = {"a.cfg": INPUTS["mixed"], "sub/b.cfg": INPUTS["plain"]}
+    for i in range(6):      # several files with distinct secrets: pseudonym numbering follows the processing order
+        files["dev%d.cfg" % i] = "hostname dev%d\nenable secret S3cretNo%dXq\nsnmp-server community Comm%dStrZ RO\n" % (i, i, i)
+    c_text.write_tree(ind, files)
     for i, hs in enumerate(["0", "1", "2", "3", "random"]):
         outd = os.path.join(base, "out%d" % i)
         rc, err = c_text.run_main(["-a", "-p", "-s", "S1", "-w", ",".join(WORDS), "-n", "65001,12", "-i", ind, "-o", outd], hashseed=hs)
